@@ -217,9 +217,19 @@ def _uri_values(style):
     return (
         value
         for prop in style.getProperties(all=True)
-        for value in prop.propertyValue
-        if value.type == 'URI'
+        for value in _nested_uri_values(prop.propertyValue)
     )
+
+
+def _nested_uri_values(values):
+    """URI values in `values`, including the ones used as function arguments."""
+    for value in values:
+        if value.type == 'URI':
+            yield value
+        elif isinstance(value, css.value.CSSFunction):
+            yield from _nested_uri_values(
+                item.value for item in value.seq if isinstance(item.value, css.value.Value)
+            )
 
 
 _flatten = itertools.chain.from_iterable
